@@ -34,6 +34,17 @@ Theorem document_reads_back : forall d t,
   exists out, xml_output d = Some out /\ xml_parse out = Some (as_written t).
 Proof. exact xml_output_roundtrip. Qed.
 
+(* a document that converts has exactly one root element (a text root is an error since fix 02a5024), so for documents the
+   well-formedness condition no longer has to ask for it *)
+Theorem converted_document_has_one_root_element : forall d t,
+  to_xml d <> None -> tree_of_doc d = Some t -> exists name ns attrs kids, x_body t = [XElem name ns attrs kids].
+Proof. exact to_xml_body_element. Qed.
+
+Theorem document_reads_back_wf : forall d t,
+  tree_of_doc d = Some t -> doc_tree_wf t = true -> to_xml d <> None ->
+  exists out, xml_output d = Some out /\ xml_parse out = Some (as_written t).
+Proof. exact xml_output_roundtrip_wf. Qed.
+
 (* ... which differs from the described tree only by whitespace-only text nodes put in by the writer's indentation *)
 Theorem indentation_adds_only_blank_text : forall n lvl nst,
   node_wf nst n = true -> strip_ws (written_node lvl nst n) = strip_ws n.
